@@ -36,6 +36,7 @@ type Stats struct {
 	BoundCompleted int // highest bound completed (-1 = none); meaningful when !Unbounded
 	Unbounded      bool
 	Capped         bool
+	Diverged       int64 // executions abandoned because the replayed prefix did not fit
 	MaxPoints      int
 	States         int64 // distinct cached states in the last pass
 }
@@ -74,6 +75,15 @@ func Explore(opt Options, body func(s *Sched), check func(x *Exec) bool) Stats {
 			if x.TimedOut {
 				st.Capped = true
 				return st
+			}
+			if x.Diverged {
+				// this branch cannot be replayed: skipped, and the exploration is not called exhaustive
+				st.Diverged++
+				st.Capped = true
+				if st.Diverged > 2000 {
+					return st
+				}
+				continue
 			}
 			st.Executions++
 			if len(x.Points) > st.MaxPoints {
